@@ -15,6 +15,20 @@ type PropSpec struct {
 }
 
 var properties = map[string]PropSpec{
+	"C15": {
+		Level: "other",
+		Explanation: "R-XFER, decided on Stack.Transfer and its worker. SRC: the transitive write sets of both have no location rooted at the source (content, configuration, lock bookkeeping), and an element is pushed only in states where destination != source is established (a stack is never transferred into itself). GUARD: the worker is reached only for an initialised source, a destination the converter accepts (native, alias, pointer) and a destination whose own read-only flag is clear; its verdict is returned and every other path returns false; the worker receives (source, converted destination). FIT: a push is reachable only on paths where the destination has no capacity or Len(src) <= cap(dst) - len(dst) holds for the headers found (linear entailment), so a transfer that does not fit writes nothing and reports false. ALL: the copy loop runs i = 0, 1, ... while i < Len(src), pushes exactly src.index(i) - whether or not the lookup reports it found, so nil elements are copied - once per iteration, and nothing else in the worker writes. TRUE: the verdict is dst.ulen() after the loop == dst.ulen() before it + src.ulen(). R-NIL/R-REFL/R-BND census over Transfer's scope (zero, foreign and typed-nil destinations cannot panic).",
+		NotDecided: "that on success the destination holds its previous elements followed by the source's in order (sequence equality: follows from C01's push specification plus ALL, not mechanised as one statement); a destination whose push policy or no-nesting option rejects elements is modified partially and false is returned (outside the statement).",
+		Run: func(c *Ctx) {
+			c.ruleInv()
+			if root := c.anchor("R-XFER", "Stack.Transfer"); root != nil {
+				c.ruleCensus(c.reach(root), map[string]bool{"R-NIL": true, "R-REFL": true, "R-TA": true, "R-BND": true})
+			}
+			c.ruleXfer()
+			c.rep.floor("R-XFER", 4)
+			c.rep.floor("R-NIL", 50)
+		},
+	},
 	"C05": {
 		Level: "other",
 		Explanation: "Necessary conditions of 'IsEqual rejects any difference and never panics', decided on everything reachable from Stack.IsEqual and Condition.IsEqual. R-LOOPRET (every comparison loop: stack.isEqual, slicesEqual, structsEqual, mapsEqual): the error variable is a latch - each comparison whose verdict is stored into it is made only in states where it is still nil, so a difference found at one element can never be overwritten by a later nil; the function returns that variable (or, straight out of the loop, the verdict/fresh error just obtained); counting loops start at 0, advance by exactly one, fetch both sides at the loop counter itself, are bounded by the length (Len/NumField/ulen) and can be left only when the counter reached the bound, a difference is recorded, or an error is returned. NILRET: each equality function returns nil only on paths on which every comparison it made outside a loop returned nil. R-COVER: on every accepting path of condition.isEqual the keywords were compared equal, the operators are both absent or their String() and Context() were both compared equal, and the verdict returned is valuesEqual(r.ex, o.ex); on every accepting path of stack.isEqual the two are the same object or capLenEqual held, the kinds were compared equal, and the element loop compares r.index(i) with o.index(i). R-NIL/R-REFL/R-CANIF/R-TA/R-BND census over the scope: typed nil pointers of any depth, zero reflect.Values, unexported struct fields, missing map keys cannot panic; every reflect.Value method called is classified (panic conditions tabled or known total) and Value.Equal is reached only with operands accepted by isKnownPrimitive.",
